@@ -27,6 +27,10 @@ def js_of_tmpl(t):
         return "event.verifmark = 1; Env.bindings"
     if k == "addfact":
         return "Env.AddFact(%s, %s)" % (json.dumps(t["id"]), json.dumps(t["fact"]))
+    if k == "addrule":
+        return "Env.AddRule(%s, %s)" % (json.dumps(t["id"]), json.dumps(t["rule"]))
+    if k == "remfact":
+        return "Env.RemFact(%s)" % json.dumps(t["id"])
     raise ValueError(k)
 
 
